@@ -26,7 +26,8 @@ ASSUMPTIONS = ["symbolic links inside experiment outputs are part of the tree (r
                "every recorded version has its directory in the source project (C06/C12 cover the other cases)"]
 ESSENTIAL = ["latest", "task_closure_with_nonarchivable_between", "diamond_below_task", "nested_pkg", "name_leading_dash_root_pkg",
              "undefined_task_rows", "empty_output_dir", "symlink_in_output", "equal_ts_across_tasks", "null_commit", "dirty_flag", "empty_selection",
-             "out_dir", "out_file", "out_relative_name_with_colon", "restore_into_cleaned"]
+             "out_dir", "out_file", "out_relative_name_with_colon", "restore_into_cleaned",
+             "stale_temporary_archive_index"]
 TECHNIQUE = "property-based round-trip testing (Hypothesis): archive -> restore with real tar; model selection + tree snapshots as oracle"
 LEVEL_TEXT = "Randomised round-trip search over index contents, output trees and flags; exact equality of rows and trees in both projects."
 LEVEL_NOTE = "Trusted: the selection model in this file; vf/trees.py."
@@ -87,6 +88,8 @@ def _case(draw, tier):
     g["latest"] = draw(st.booleans())
     g["task_arg"] = task_arg
     g["out"] = draw(st.sampled_from([None, None, "dir", "file", "rel_colon"]))
+    # leftover of an earlier `cond archive` that was killed: its temporary index (with some of the rows) still in cond-out
+    g["stale_tmp_index"] = draw(st.sampled_from([None, None, None, 1, 2, 3]))
     g["restore_into"] = draw(st.sampled_from(["fresh", "fresh", "cleaned"]))
     return g
 
@@ -222,6 +225,17 @@ def _run(case, src, dst, aux):
     tss = [r[1] for r in case["rows"]]
     if len(set(tss)) < len(tss):
         labels.add("equal_ts_across_tasks")
+    if case.get("stale_tmp_index") and case["rows"]:
+        import sqlite3
+        k = case["stale_tmp_index"]
+        stale = [r for n, r in enumerate(sorted(all_rows, key=repr)) if (n + k) % 3 != 0] or sorted(all_rows, key=repr)[:1]
+        conn = sqlite3.connect(os.path.join(src, "cond-out", "version_index_archive.sqlite"))
+        conn.execute("PRAGMA user_version = 2")
+        conn.execute(projgen._CREATE)
+        conn.executemany("INSERT INTO version_index VALUES (?, ?, ?, ?)", [(t, int(ts), c, 1 if d else 0) for t, ts, c, d in stale])
+        conn.commit()
+        conn.close()
+        labels.add("stale_temporary_archive_index")
     src_before = trees.snapshot(src)
     rows_before = projgen.read_rows(src)
     res = run_cond(src, argv, timeout=180)
@@ -250,7 +264,8 @@ def _run(case, src, dst, aux):
     # source unchanged apart from the new archive file
     arch_rel = os.path.relpath(out_path, src)
     changed = [k for k in set(src_before) | set(src_after) if src_before.get(k) != src_after.get(k)
-               and k != arch_rel and not k.endswith("version_index.sqlite")]
+               and k != arch_rel and not k.endswith("version_index.sqlite")
+               and not k.endswith("cond-out/version_index_archive.sqlite")]   # archive's own temporary index (a planted leftover is removed)
     if changed:
         v.append(("source_modified", "archiving changed the source project: %s" % sorted(changed)[:4]))
     if projgen.read_rows(src) != rows_before:
